@@ -151,4 +151,22 @@ PROPS = {
              "profiles": ["release", "bmi2"]},
         ],
     },
+    "C17": {
+        "level": "model_checking",
+        "claim": "The exact plane coordinates of every lattice point of small subdivisions (numerators over 2N) and the depth-0 cells whose "
+                 "closure contains it (StarFace at N = 1 of the coarsened face) come from the specification; TLC enumerates all faces for "
+                 "N in {1,2,3,4,8} (up to 32 thorough) - facet boundaries, |y| = 1, poles, seams - and the harness checks proj (5 turns, sign, "
+                 "range, 1e-14), unproj of the exact point (both signs of x), both round trips and base_cell_from_proj_coo against them. Recorded "
+                 "calls on random / adversarial positions are judged by the trace spec (thresholds and base-cell membership in TLC, deviations "
+                 "measured by the bridge's independent C&R implementation).",
+        "rule": "events = proj / unproj / round trips / base_cell_from_proj_coo on seeded positions (uniform, multi-turn, near-pole, adversarial, "
+                "lattice +-ulp) and out-of-domain rejections; non-trivial = non-uniform class",
+        "assumptions": GEO_ASSUME,
+        "stages": [
+            {"kind": "mc", "module": "MC_Geo", "cfg": {"quick": "MC_Geo.cfg", "thorough": "MC_Geo_thorough.cfg"}, "workers": 6},
+            {"kind": "gen", "module": "Gen_Proj", "cfg": {"quick": "Gen_Proj.cfg", "thorough": "Gen_Proj_thorough.cfg"}, "scenario": "C17", "exhaustive": True},
+            {"kind": "rec", "scenario": "C17", "count": {"quick": 20000, "thorough": 500000}, "trace_module": "Trace_Geo", "trace_cfg": "Trace_Geo.cfg",
+             "nontrivial": lambda ev: ev.get("cls") != "uniform"},
+        ],
+    },
 }
